@@ -614,7 +614,17 @@ def evaluate(schema, ci, fault, bs, expectation=None, Ref=None):
     # are kept verbatim, in order, and removing them changes no attribute
     if sclass == "valid":
         by_num = {f.number: f for f in c.fields}
-        foreign = [(a, b) for (a, b, num, wt, *_r) in sinfo if num not in by_num or not fits(by_num[num], wt)]
+        # a packed payload that is not a whole number of elements (a fixed-width element cut in the middle, a varint
+        # element without its last byte) is a field cut in the middle: it must be rejected, not decoded into a shorter list
+        for (a, b, num, wt, ps, _lp) in sinfo:
+            f = by_num.get(num)
+            if f is not None and wt == 2 and f.card == "repeated" and f.proto_type in WT_OF and WT_OF[f.proto_type] != 2:
+                try:
+                    wiregen.split_packed(bs[ps:b], f.proto_type)
+                except (wiregen.WireError, IndexError) as e:
+                    problems.append(("accepts-malformed", f"packed payload {bs[ps:b].hex()} of repeated {f.proto_type} field {f.name} is not a whole "
+                                     f"number of elements ({e}) but parse() returned {m!r:.200}"))
+        foreign =[(a, b) for (a, b, num, wt, *_r) in sinfo if num not in by_num or not fits(by_num[num], wt)]
         exp_unknown = b"".join(bs[a:b] for a, b in foreign)
         unk = bytes(object.__getattribute__(m, "_unknown_fields"))
         if unk != exp_unknown:
